@@ -369,7 +369,8 @@ package hpack
 //@   pure
 //@   ensures out == dst ++ huffEnc(s)
 //@ -- string literal: H bit + length integer + octets; Huffman only when strictly shorter
-//@ pure func senc(s string) seq[byte] = ite(huffLen(s) < len(s), vencF(7, 128, huffLen(s)) ++ huffEnc(s), venc(7, len(s)) ++ s)
+//@ pure func flagged(q seq[byte]) seq[byte] = seq[byte]{128 + q[0]} ++ q[1:]
+//@ pure func senc(s string) seq[byte] = ite(huffLen(s) < len(s), flagged(venc(7, huffLen(s))) ++ huffEnc(s), venc(7, len(s)) ++ s)
 //@ -- what the decoder reads back from a string literal
 //@ pure func slen(q seq[byte]) int = vlen(7, q) + vint(7, q)
 //@ pure func sval(q seq[byte]) string = ite(q[0] >= 128, huffDec(q[vlen(7, q):vlen(7, q) + vint(7, q)]), q[vlen(7, q):vlen(7, q) + vint(7, q)])
@@ -378,9 +379,11 @@ package hpack
 //@ lemma [C18:plain-length-prefix-round-trip-long] rtLen0b(l int, rest seq[byte]) using rtGroups, rtGroupsLen = 127 <= l ==> vint(7, seq[byte]{127} ++ vgroups(l - 127) ++ rest) == l && vlen(7, seq[byte]{127} ++ vgroups(l - 127) ++ rest) == 1 + len(vgroups(l - 127))
 //@ lemma [C18:huffman-length-prefix-round-trip] rtLen128(l int, rest seq[byte]) using rtGroups, rtGroupsLen = 0 <= l ==> vint(7, vencF(7, 128, l) ++ rest) == l && vlen(7, vencF(7, 128, l) ++ rest) == len(vencF(7, 128, l)) && (vencF(7, 128, l) ++ rest)[0] >= 128
 //@ -- the three shapes senc(s) takes, each decoded back by the reader's definition (sval / slen)
-//@ lemma [C18:string-literal-round-trip-huffman] rtStringHuff(s string, rest seq[byte]) using rtLen128(huffLen(s), huffEnc(s) ++ rest) = huffLen(s) < len(s) ==> sval(vencF(7, 128, huffLen(s)) ++ huffEnc(s) ++ rest) == s && slen(vencF(7, 128, huffLen(s)) ++ huffEnc(s) ++ rest) == len(vencF(7, 128, huffLen(s))) + huffLen(s)
+//@ lemma [C18:string-literal-round-trip-huffman-flagged-length] rtStringHuffF(s string, rest seq[byte]) using rtLen128(huffLen(s), huffEnc(s) ++ rest) = huffLen(s) < len(s) ==> sval(vencF(7, 128, huffLen(s)) ++ huffEnc(s) ++ rest) == s && slen(vencF(7, 128, huffLen(s)) ++ huffEnc(s) ++ rest) == len(vencF(7, 128, huffLen(s))) + huffLen(s)
+//@ lemma [C18:string-literal-round-trip-huffman] rtStringHuff(s string, rest seq[byte]) using flagHead(huffLen(s)), rtStringHuffF(s, rest) = huffLen(s) < len(s) ==> flagged(venc(7, huffLen(s))) == vencF(7, 128, huffLen(s)) && sval(vencF(7, 128, huffLen(s)) ++ huffEnc(s) ++ rest) == s
 //@ lemma [C18:string-literal-round-trip-short] rtStringShort(s string, rest seq[byte]) using rtLen0a(len(s), s ++ rest) = len(s) < 127 ==> sval(seq[byte]{len(s)} ++ s ++ rest) == s && slen(seq[byte]{len(s)} ++ s ++ rest) == 1 + len(s)
 //@ lemma [C18:string-literal-round-trip-long] rtStringLong(s string, rest seq[byte]) using rtLen0b(len(s), s ++ rest) = len(s) >= 127 ==> sval(seq[byte]{127} ++ vgroups(len(s) - 127) ++ s ++ rest) == s && slen(seq[byte]{127} ++ vgroups(len(s) - 127) ++ s ++ rest) == 1 + len(vgroups(len(s) - 127)) + len(s)
+//@ lemma [C18:flag-bit-on-the-first-length-octet] flagHead(l int) = 0 <= l ==> seq[byte]{128 + venc(7, l)[0]} ++ venc(7, l)[1:] == vencF(7, 128, l) && len(venc(7, l)) >= 1 && venc(7, l)[0] < 128
 //@ func appendHpackString :: dst, s -> out
 //@   props C18,C10
 //@   assigns nothing
